@@ -93,7 +93,7 @@ m={
  "setup_cmd": "cd /verif/driver && GOFLAGS=-mod=mod GOPROXY=off GOSUMDB=off GOTOOLCHAIN=local go build -o /verif/bin/vdriver .",
  "hooks": {
    "guard": "verif",
-   "enable": "go build -tags verif -overlay <generated> (overlay maps /verif/harness into /repo/internal/verif and accessor files into existing packages; /repo is never copied or modified)",
+   "enable": "go build -tags verif -overlay <generated> (overlay maps /verif/harness into /repo/internal/verif and accessor files into existing packages; it also replaces badger's txn.go by a generated copy in which a successful Txn.Commit calls a hook variable that only the crash writer sets; /repo and the module cache are never copied or modified)",
    "baseline_off_cmd": "cd /repo && GOFLAGS=-mod=mod GOPROXY=off GOSUMDB=off GOTOOLCHAIN=local go test -json -vet=off -count=1 -timeout 25m ./...",
    "source_commits": [c.split()[0] for c in hooks_commits if c],
    "add_only": True,
